@@ -32,6 +32,10 @@ def items(tier):
         if any(k_ in c.label for k_ in ("floor", "argmax", "abs and sign", "relu", "value-dependent")):
             out.append(("vjp", c))
             out.append(("jvp", c))
+    for c in grid.nested_grid(tier):
+        if "independent of ITS" in c.label or "piecewise constant in ITS" in c.label or "outer-only" in c.label:
+            out.append(("vjp", c))
+            out.append(("jvp", c))
     return out
 
 
